@@ -71,8 +71,11 @@ def getRoot (d : DB) (v : Int) : Except Err (Option Node) :=
     | some leaf => .ok (some leaf)
     | none => .error .noVersion
 
-/-- the greatest version of any node key in the database -/
-def latest (d : DB) : Int := d.roots.foldl (fun m p => max m p.1) 0
+/-- the greatest version of any node key in the database (`getLatestVersion`'s reverse
+scan).  Every node reachable from a root is at most as new as that root, so the maximum is
+taken by a `(v, 1)` key: a root entry or a surviving leaf key. -/
+def latest (d : DB) : Int :=
+  d.stuck.foldl (fun m p => max m p.1) (d.roots.foldl (fun m p => max m p.1) 0)
 
 def insertRoot (v : Int) (r : Option Node) : List (Int × Option Node) → List (Int × Option Node)
   | [] => [(v, r)]
